@@ -213,7 +213,7 @@ def _task(arg):
     modname, lengths, tier = arg
     try:
         entries = [e for e in catalog() if e['src'] == modname and e['fn'] != 'convert']
-        sw = accept.AcceptSweep(modname, lengths, checker_factory(modname, entries), tier, 200 if tier == 'quick' else 1800, 'C08')
+        sw = accept.AcceptSweep(modname, lengths, checker_factory(modname, entries), tier, 150 if tier == 'quick' else 1800, 'C08')
         return sw.run()
     except Exception as e:      # noqa: B902
         import traceback
@@ -269,6 +269,12 @@ def bounded(rep, tier):
             h = meid.format(v, format='hex', separator='')
             d_ = meid.format(v, format='dec', separator='')
             ok = meid.validate(h) == meid.validate(d_) == meid.validate(meid.format(d_, format='hex', separator=''))
+            # with the check digit kept: every presentation (hex / decimal, with the check digit added) converted to the compact
+            # hexadecimal form and to the other representation stays valid and denotes the same 56 bits
+            for w in (x, meid.format(x, add_check_digit=True), meid.format(v, format='dec', add_check_digit=True),
+                      meid.format(v, format='hex', add_check_digit=True)):
+                for y in (meid.compact(w, strip_check_digit=False), meid.format(w, format='hex'), meid.format(w, format='dec')):
+                    ok = ok and meid.to_binary(meid.validate(y)) == meid.to_binary(v)
         except Exception as ex:      # noqa: B902
             ok = False
         if not ok:
@@ -350,7 +356,7 @@ def check(prop, tier, args):
         srcs = [m for m in srcs if m in args.modules]
     units = accept.accepting_units(modules=srcs)
     items = [(m, sorted({n for o, n in units.get(m, []) if n != 'long'}), tier) for m in srcs if m in units]
-    res = accept.run_modules(_task, items, 300 if tier == 'quick' else 4000)
+    res = accept.run_modules(_task, items, 240 if tier == 'quick' else 4000)
     for m in sorted(res):
         r = res[m]
         for e in cat:
